@@ -53,6 +53,25 @@ func usesOfParam(fn *ssa.Function, name string) (uses []ssa.Instruction, found b
 						walk(a)
 						continue
 					}
+					// kept in a field of a small struct of the package (the state of the replacement callback when that
+					// is a method instead of a closure): every load of that field, anywhere in the package, is the parameter
+					if fa, ok := in.Addr.(*ssa.FieldAddr); ok {
+						if st, ok := deref(fa.X.Type()).Underlying().(*types.Struct); ok && !isInterp(fa.X.Type()) {
+							fv := st.Field(fa.Field)
+							for _, g := range fieldLoadFns(fn) {
+								allInstrs(g, func(i2 ssa.Instruction) {
+									if ld, ok := i2.(*ssa.UnOp); ok && ld.Op == token.MUL {
+										if fa2, ok := ld.X.(*ssa.FieldAddr); ok {
+											if st2, ok := deref(fa2.X.Type()).Underlying().(*types.Struct); ok && st2.Field(fa2.Field) == fv {
+												walk(ld)
+											}
+										}
+									}
+								})
+							}
+							continue
+						}
+					}
 				}
 				if in.Addr == v {
 					// the store that initialises the cell from the parameter itself
@@ -278,4 +297,38 @@ func ruleSubShare(c *Ctx) {
 	c.check(bad == "" && n >= 1, "subshare:repl", badPos,
 		"`repl` is read only byte by byte inside the replacement callback",
 		"in (*interp).sub the replacement text is used as a whole ("+bad+"): the & and backslash expansion is bypassed on that path, so the same replacement gives different text in sub() and gsub()")
+}
+
+// fieldLoadFns: the functions of fn's package (with their function literals).
+func fieldLoadFns(fn *ssa.Function) []*ssa.Function {
+	var out []*ssa.Function
+	seen := map[*ssa.Function]bool{}
+	var add func(f *ssa.Function)
+	add = func(f *ssa.Function) {
+		if f == nil || seen[f] || len(f.Blocks) == 0 {
+			return
+		}
+		seen[f] = true
+		out = append(out, f)
+		for _, a := range f.AnonFuncs {
+			add(a)
+		}
+	}
+	if fn.Pkg == nil {
+		return nil
+	}
+	for _, m := range fn.Pkg.Members {
+		switch x := m.(type) {
+		case *ssa.Function:
+			add(x)
+		case *ssa.Type:
+			for _, t := range []types.Type{x.Type(), types.NewPointer(x.Type())} {
+				ms := fn.Prog.MethodSets.MethodSet(t)
+				for i := 0; i < ms.Len(); i++ {
+					add(fn.Prog.MethodValue(ms.At(i)))
+				}
+			}
+		}
+	}
+	return out
 }
